@@ -28,13 +28,13 @@ func TestVerifC14_x25519(t *testing.T) {
 	}
 	all := verifc14.FieldAlphabet(4, wide, named, -2, 19, c.R.Pick(8, 32), "x25519-public")
 	secrets := verifc14.DHSecrets(Size, c.R.Thorough(), c.R.Seed())
-	shared := secrets
-	if !c.R.Thorough() {
-		shared = append(append([]verifc14.Named{}, secrets[:10]...), secrets[len(secrets)-2:]...)
+	shared := append(append([]verifc14.Named{}, secrets[:10]...), secrets[len(secrets)-2:]...)
+	if c.R.Thorough() {
+		shared = append(shared, verifc14.Thin(secrets[10:len(secrets)-2], 48)...)
 	}
 	c.R.Rule("peer values: every 32-byte string with limbs in {0,1,2^63,2^64-1}, every string one limb away from 00../FF.. over a 14-value limb list, " +
 		"-2..+19 around p, 2p, 9 and the five low-order points of the package table, SHAKE-derived strings; secrets: SEEDS(32), 3 SHAKE strings, 0x55../0xaa.., single-bit secrets " +
-		"(all 256 in the thorough tier, byte-boundary bits in the quick tier). KeyGen on every secret; Shared on the full product in the thorough tier, on 12 secrets x every peer value in the quick tier; a case = one peer value, digest over all secrets (bytes + ok flag)")
+		"(all 256 in the thorough tier, byte-boundary bits in the quick tier). KeyGen on every secret; Shared on 12 secrets (quick) / about 60 secrets (thorough: every 8th single-bit secret added) x every peer value; a case = one peer value, digest over all secrets (bytes + ok flag)")
 	c.R.NotExhaustive("secrets and peer values are the declared alphabets")
 	verifc14.RunDH(c, &verifc14.DH{
 		Name: "X25519", Size: Size,
